@@ -106,6 +106,8 @@ def generate(rng, tier):
         cases.append({"ctor": ctor, "sizes": sizes, "dscoords": dscoords, "dims": dims, "func": rng.choice(OPS),
                       "axes": op_axes, "to": to, "keep": rng.random() < 0.6, "in_coords": in_coords,
                       "name": rng.choice(["temp", "u", None]),
+                      # metric weighting is an option of the same operations: it must not change a label
+                      "weighted": (rng.random() < 0.25 and not faces),
                       "boundary": G.kwval(rng, axes, G.WORDS), "faces": faces})
     return cases
 
@@ -129,6 +131,14 @@ def build(case):
         a0 = c["coords"][0][0]
         kw["face_connections"] = {"face": {f: {a0: (((f - 1) % n, a0, False), ((f + 1) % n, a0, False))}
                                            for f in range(n)}}
+    if case.get("weighted"):
+        # a positive metric for every axis at every one of its positions (data variables, not coordinates)
+        mets = {}
+        for a, cs in c["coords"]:
+            for p, d in cs:
+                ds[f"m_{d}"] = ((d,), np.arange(sizes[d]) + 1.0)
+                mets.setdefault((a,), []).append(f"m_{d}")
+        kw["metrics"] = mets
     g = Grid(ds, coords={a: {p: d for p, d in cs} for a, cs in c["coords"]}, periodic=c["periodic"],
              boundary=c["boundary"], fill_value=c["fill"], autoparse_metadata=False, **kw)
     return ds, g
@@ -149,6 +159,8 @@ def run_impl(case):
         kw["to"] = case["to"]
     if case["boundary"] is not None:
         kw["boundary"] = case["boundary"]
+    if case.get("weighted"):
+        kw["metric_weighted"] = tuple(case["axes"])
     axis = case["axes"] if len(case["axes"]) > 1 else case["axes"][0]
     names = [c["name"] for c in case["dscoords"]]
     try:
